@@ -20,7 +20,7 @@ func init() {
 		Level: "exploration",
 		Rule: "every rule set of the bounded grammar classes plus the family list (LR(0)/SLR/NQLALR/LALR/LR(1) separators) goes through the real lookahead computation; " +
 			"for every (state, completed rule) the set is compared with the LR(1)-merge definition; warnings on stdout are compared with the reference conflict cells; " +
-			"additionally lalr.Digraph is run on every relation over <=4 nodes (65536 digraphs) against transitive closure; " +
+			"the warning clause additionally on every precedence decoration (levels, associativities, %prec, both rule orders) of the conflicting rule sets of the small classes; additionally lalr.Digraph is run on every relation over <=4 nodes (65536 digraphs) against transitive closure; " +
 			"a case is non-trivial when at least one reduce lookahead set was compared; cases are distinct rule sets / distinct digraphs",
 		Assumptions: []string{
 			"reference lookaheads come from the canonical LR(1) collection merged by core (ref/grammar.go), independent of DeRemer-Pennello",
@@ -30,6 +30,9 @@ func init() {
 		Work: func(w *Worker) {
 			forEachGrammar(w, classesFor(w), false, true, func(idx int64, c *GCase) { c03Eval(w, c) })
 			c03Digraphs(w)
+			// the "iff" of the warning clause needs precedence declarations: every decoration of the
+			// conflicting rule sets of the small classes (the enumeration C04 uses for its cells)
+			forEachDecorated(w, int64(1)<<39, func(c *GCase) { c03Eval(w, c) })
 		},
 		Replay: func(w *Worker, raw json.RawMessage) {
 			var c GCase
